@@ -558,3 +558,67 @@ def verdict_class(out):
 
 def mk_case(at, vt, **x):
     return {'m': 'checker', 'c': {'env': env_json(), 'ann': at, 'val': vt}, 'x': x}
+
+
+env_json()   # intern the names of the class table first so that name ids are stable across runs
+
+
+def run_impl_checker(cases):
+    out = []
+    for c in cases:
+        try:
+            ao = build_ann(c['c']['ann'])
+            vo = build_val(c['c']['val'])
+        except Exception as e:      # a corpus case that cannot be concretised any more
+            out.append({'out': 'unbuildable:' + type(e).__name__})
+            continue
+        out.append({'out': run_assert(ao, vo)})
+    return out
+
+
+def gen_checker_cases(rng, n, depth=None):
+    cases = []
+    while len(cases) < n:
+        at = gen_pair(rng, depth)
+        for _ in range(3):
+            vt, kind = gen_value_for(rng, at)
+            cases.append(mk_case(at, vt, kind=kind))
+    return cases
+
+
+def small_terms():
+    """exhaustive family used by the thorough tier: every annotation of depth <= 2 over a base alphabet x origins x spellings"""
+    base = [cls_term(int), cls_term(str), ["union", "optional", [cls_term(int), ["cls", IDX[NoneType]]]], cls_term(P)]
+    anns = list(base)
+    for sp in ('typing', 'pep585'):
+        for o in SEQ:
+            for b in base: anns.append(["seq", sp, o, b])
+        for o in MAP:
+            for b in base: anns.append(["map", sp, o, cls_term(str), b])
+        for b in base:
+            anns.append(["tuplevar", sp, b]); anns.append(["tuple", sp, [b]]); anns.append(["tuple", sp, [b, cls_term(str)]])
+    return [canon_ann(a)[0] for a in anns]
+
+
+def small_values():
+    atoms = [lit(0), lit('a'), lit(None), ["inst", IDX[P]], ["inst", IDX[C1]], lit(True)]
+    vals = list(atoms)
+    for c in (list, tuple, set, frozenset, collections.deque):
+        k = 'tup' if c is tuple else 'coll'
+        vals.append([k, IDX[c], []])
+        for a in atoms:
+            vals.append([k, IDX[c], [a]])
+            for b in atoms[:3]:
+                vals.append([k, IDX[c], [a, b]])
+    for c in (dict, collections.defaultdict):
+        vals.append(["mapping", IDX[c], []])
+        for a in atoms:
+            vals.append(["mapping", IDX[c], [[lit('a'), a]]])
+            vals.append(["mapping", IDX[c], [[a, lit(0)]]])
+    out = []
+    for v in vals:
+        try:
+            out.append(canon_val(v)[0])
+        except TypeError:
+            pass
+    return out
